@@ -43,6 +43,7 @@ static void* worker(void* p) {
         if ((op == OP_ENCODE || op == OP_STORE || op == OP_CRYPT || op == OP_KEYGEN || op == OP_GETTERS || op == OP_FREE) && !S[sl]) op = OP_CREATE;
         if ((op == OP_CREATE || op == OP_DECODE || op == OP_EXPLICIT || op == OP_LOAD) && S[sl]) { uint64_t c0 = tick(); polyseed_free(S[sl]); uint64_t r0 = tick(); S[sl] = NULL; if (c->iv) c->iv[c->niv++] = (ival){ OP_FREE, c0, r0 }; c->opcount[OP_FREE]++; }
         uint64_t tc = tick();
+        pv_cur.api = OPN[op];            /* thread-local: lets the crash handler attribute a fault to the library call in progress */
         switch (op) {
         case OP_CREATE: {
             uint8_t script[19]; pv_randbytes(&r, script, 19); pv_set_rand_script(script, 19);
@@ -88,6 +89,7 @@ static void* worker(void* p) {
         case OP_GETTERS: T = pv_mix(T, polyseed_get_birthday(S[sl]) ^ polyseed_get_feature(S[sl], 7) ^ ((uint64_t)polyseed_is_encrypted(S[sl]) << 40)); break;
         case OP_FREE: polyseed_free(S[sl]); S[sl] = NULL; break;
         }
+        pv_cur.api = NULL;
         uint64_t tr = tick();
         if (c->iv) c->iv[c->niv++] = (ival){ op, tc, tr };
         c->opcount[op]++;
@@ -122,16 +124,14 @@ static void run_rounds(uint64_t idx, pv_rng* rng) {
     static tctx solo[MAXT], conc[MAXT];
     pv_world* mainw = pv_w;
     uint64_t base = pv_rand64(rng);
-    /* solo executions (sequential, same scripts) */
-    for (int t = 0; t < nt; ++t) {
-        memset(&solo[t], 0, sizeof solo[t]); solo[t].tid = t; solo[t].script_seed = base + (uint64_t)t * 1315423911u; solo[t].nops = nops; solo[t].concurrent = false;
-        pthread_t th; pthread_create(&th, NULL, worker, &solo[t]); pthread_join(th, NULL);
-    }
     /* concurrent execution */
     g_clk = 0;
     pthread_barrier_init(&g_bar, NULL, (unsigned)nt);
     pthread_t th[MAXT];
+    /* the concurrent phase comes FIRST: every shard is a fresh process, so anything the library initialises lazily is
+     * initialised under contention here */
     for (int t = 0; t < nt; ++t) {
+        memset(&solo[t], 0, sizeof solo[t]); solo[t].tid = t; solo[t].script_seed = base + (uint64_t)t * 1315423911u; solo[t].nops = nops; solo[t].concurrent = false;
         conc[t] = solo[t]; conc[t].concurrent = true; conc[t].yield_pct = 20; conc[t].yield_seed = base ^ idx; conc[t].digest = 0; conc[t].model_mismatch = 0;
         memset(conc[t].opcount, 0, sizeof conc[t].opcount);
         conc[t].iv = malloc(sizeof(ival) * (size_t)(nops * 2 + 8)); conc[t].niv = 0;
@@ -139,6 +139,8 @@ static void run_rounds(uint64_t idx, pv_rng* rng) {
     }
     for (int t = 0; t < nt; ++t) pthread_join(th[t], NULL);
     pthread_barrier_destroy(&g_bar);
+    /* solo executions (sequential, same scripts) */
+    for (int t = 0; t < nt; ++t) { pthread_t th1; pthread_create(&th1, NULL, worker, &solo[t]); pthread_join(th1, NULL); }
     pv_w = mainw;
     /* offline: overlapping call pairs of different threads by (op,op) type (sweep over the logical clock) */
     size_t total = 0; for (int t = 0; t < nt; ++t) total += (size_t)conc[t].niv;
